@@ -28,7 +28,7 @@ ToSet(seq) == {seq[i] : i \in 1..Len(seq)}
 NoObs == [none |-> TRUE]
 
 CntKeys == {"reset", "pos", "mv", "do", "undo", "donull", "undonull",
-            "legal_cmp", "fen_cmp", "pred_cmp", "key_cmp", "cls_cmp", "uci_cmp", "enc_cmp", "san_cmp", "undo_cmp", "rt_cmp",
+            "legal_cmp", "fen_cmp", "pred_cmp", "key_cmp", "cls_cmp", "uci_cmp", "enc_cmp", "san_cmp", "undo_cmp", "rt_cmp", "wf_cmp",
             "n_ep", "n_check", "n_castle", "n_promo", "n_mate", "n_stale", "n_rep", "n_rep3", "n_r50", "n_insuff",
             "n_epmove", "n_castlemove", "n_promomove", "n_checkmove", "n_capmove", "n_revisit", "viol"}
 Cnt0 == [k \in CntKeys |-> 0]
@@ -200,8 +200,12 @@ ProcessOp(s, ev, ln) ==
              ok == wf /\ s.g.cur.board[MFrom(m)] # 0 /\ ColorOf(s.g.cur.board[MFrom(m)]) = s.g.cur.stm
              \* a move the spec cannot interpret: keep the position, the next pos event re-synchronises
              g2 == IF ok THEN Do(s.g, m) ELSE [s.g EXCEPT !.past = Append(s.g.past, Id(s.g.cur)), !.stack = Append(s.g.stack, Frame(s.g))]
-         IN [st |-> [s EXCEPT !.g = g2, !.legal = {}, !.legalKnown = FALSE, !.expect = NoObs, !.lastOp = "do", !.cnt = Bump(s.cnt, {"do"})],
-             viol |-> IF ok THEN <<>> ELSE <<V(ln, "X", "uninterpretable_move", Fen(s.g.cur), [m |-> ev.m])>>]
+             \* a session generator may ask for a well-formedness witness: the move is legal and the game is not over before it
+             wfBad == Has(ev, "wf") /\ ok /\ (LET L == Legal(s.g.cur) IN m \notin L \/ GameOver(s.g, L))
+         IN [st |-> [s EXCEPT !.g = g2, !.legal = {}, !.legalKnown = FALSE, !.expect = NoObs, !.lastOp = "do",
+                              !.cnt = Bump(s.cnt, {"do"} \cup (IF Has(ev, "wf") THEN {"wf_cmp"} ELSE {}))],
+             viol |-> (IF ok THEN <<>> ELSE <<V(ln, "X", "uninterpretable_move", Fen(s.g.cur), [m |-> ev.m])>>)
+                      \o (IF wfBad THEN <<V(ln, "X", "illformed_session", Fen(s.g.cur), [m |-> ev.m, hmc |-> s.g.cur.hmc, occurrences |-> Occurrences(s.g)])>> ELSE <<>>)]
     [] ev.e = "donull" ->
          [st |-> [s EXCEPT !.g = DoNull(s.g), !.legal = {}, !.legalKnown = FALSE, !.expect = NoObs, !.lastOp = "donull", !.cnt = Bump(s.cnt, {"donull"})],
           viol |-> <<>>]
